@@ -2,7 +2,7 @@
 (***************************************************************************)
 (* L1 contract of openapi3filter.ValidateResponse (property C08).          *)
 (***************************************************************************)
-EXTENDS SchemaSem, MediaSelect
+EXTENDS HeaderRead, MediaSelect
 
 ClassKey(status) == CASE status \div 100 = 1 -> "1XX" [] status \div 100 = 2 -> "2XX" [] status \div 100 = 3 -> "3XX"
                       [] status \div 100 = 4 -> "4XX" [] status \div 100 = 5 -> "5XX" [] OTHER -> "-"
@@ -18,10 +18,16 @@ Pick(keys, status) ==
 Skipped(method, status) == method = "HEAD" \/ status \in {301, 304, 307, 308}
 
 (* part 1: which entry is checked.  Entry k accepts exactly the bodies carrying property "e"+k. *)
+(* Variants ("pv"): "xb" = ExcludeResponseBody (the marker body is not looked at: any picked entry accepts; a status   *)
+(* without definition is still refused under strict status); "reqhdr" = every entry also requires a header the response  *)
+(* does not carry (a checked response is rejected whatever entry is picked; an exempt one -- HEAD, 301/304/307/308 -- and *)
+(* a status without definition are not).                                                                                 *)
 PickAccepts(c) ==
    IF Skipped(c.method, c.status) THEN TRUE
-   ELSE LET p == Pick({c.keys[i] : i \in DOMAIN c.keys}, c.status) IN
-        IF p = "none" THEN ~c.includeStatus ELSE c.bodyKey = p
+   ELSE LET p == Pick({c.keys[i] : i \in DOMAIN c.keys}, c.status)
+            pv == IF "pv" \in DOMAIN c THEN c.pv ELSE "plain" IN
+        IF p = "none" THEN ~c.includeStatus
+        ELSE CASE pv = "xb" -> TRUE [] pv = "reqhdr" -> FALSE [] OTHER -> c.bodyKey = p
 
 (* part 2: the selected definition.  Header X-A declared as hd, carrying text hv. *)
 TInt == [type |-> "integer"]
@@ -59,19 +65,43 @@ Json == MT("application", "json", "")
 Declared(d) == CASE d = "none" -> {} [] d = "json" -> {Json} [] d = "jsonNoSchema" -> {Json}
                  [] d = "text" -> {MT("text", "plain", "")} [] d = "wild" -> {MT("application", "*", "")}
                  [] d = "jsonAndText" -> {Json, MT("text", "plain", "")}
+                 [] d = "any" -> {MT("*", "*", "")}
 
-DefAccepts(c) ==
-   /\ HeaderOK(c.hd, c.hv)
-   /\ \/ c.excludeBody
-      \/ c.decl = "none"
-      \/ LET sel == Select(Declared(c.decl), c.ct) IN
-         /\ ~IsNone(sel)
-         /\ \/ c.decl = "jsonNoSchema"
-            \/ IF sel.ty = "text"
-               THEN c.body.t = "str" /\ Valid(TextSchema, c.body, "asrep")
-               ELSE c.body.t \notin {"str", "raw"}        \* a text body / truncated text is not JSON
-                    /\ Valid(BodySchemaW(c.req, IF "wrap" \in DOMAIN c THEN c.wrap ELSE "plain"), c.body,
-                             IF c.excludeWO THEN "asrep_nowo" ELSE "asrep")
+(* the content of the selected definition: declared content type, then the body against its schema read as a response *)
+BodyAccepts(c) ==
+   \/ c.excludeBody
+   \/ c.decl = "none"
+   \/ LET sel == Select(Declared(c.decl), c.ct) IN
+      /\ ~IsNone(sel)
+      /\ \/ c.decl = "jsonNoSchema"
+         \/ IF sel.ty = "text"
+            THEN c.body.t = "str" /\ Valid(TextSchema, c.body, "asrep")
+            ELSE c.body.t \notin {"str", "raw"}        \* a text body / truncated text is not JSON
+                 /\ Valid(BodySchemaW(c.req, IF "wrap" \in DOMAIN c THEN c.wrap ELSE "plain"), c.body,
+                          IF c.excludeWO THEN "asrep_nowo" ELSE "asrep")
 
-Accepts(c) == IF c.part = "pick" THEN PickAccepts(c) ELSE DefAccepts(c)
+DefAccepts(c) == HeaderOK(c.hd, c.hv) /\ BodyAccepts(c)
+
+(* part 3 ("hdr"): ANY set of declared headers, each [name, hs (a schema of SchemaSem), hreq, explode, present, cs (the  *)
+(* text sent)].  A declared header that the response carries must satisfy its schema (HeaderRead: some reading of the    *)
+(* text is valid) -- whether it is required or not, and also when its text is empty: a header sent without a value is   *)
+(* PRESENT; one that is not sent must not be required.  Headers the definition does not declare are ignored.  Where the *)
+(* two readings of an empty piece disagree the verdict is open (neither HdrAccepts nor HdrRejects).                     *)
+(* A definition under the name Content-Type (any letter case) is ignored (OAS 3.0.3 Response Object).                    *)
+IsCT(name) == name \in {"Content-Type", "content-type", "CONTENT-TYPE"}
+(* A header sent on SEVERAL field lines ("cs2": the second line): RFC 9110 5.3 lets a recipient read the lines as one *)
+(* comma-joined list; the statement does not say whether the first line or the joined list is "the header", so the   *)
+(* contract binds only where both readings agree.                                                                    *)
+Joined(h) == h.cs \o <<",">> \o h.cs2
+TxtGood(h) == /\ TextMustAccept(h.hs, h.cs, h.explode)
+              /\ ("cs2" \in DOMAIN h => TextMustAccept(h.hs, Joined(h), h.explode))
+TxtBad(h)  == /\ TextMustReject(h.hs, h.cs, h.explode)
+              /\ ("cs2" \in DOMAIN h => TextMustReject(h.hs, Joined(h), h.explode))
+HdrGood(h) == IsCT(h.name) \/ IF h.present THEN TxtGood(h) ELSE ~h.hreq
+HdrBad(h)  == ~IsCT(h.name) /\ IF h.present THEN TxtBad(h) ELSE h.hreq
+HdrAccepts(c) == (\A i \in DOMAIN c.hdrs : HdrGood(c.hdrs[i])) /\ BodyAccepts(c)
+HdrRejects(c) == (\E i \in DOMAIN c.hdrs : HdrBad(c.hdrs[i])) \/ ~BodyAccepts(c)
+
+Accepts(c) == CASE c.part = "pick" -> PickAccepts(c) [] c.part = "hdr" -> HdrAccepts(c) [] OTHER -> DefAccepts(c)
+Rejects(c) == IF c.part = "hdr" THEN HdrRejects(c) ELSE ~Accepts(c)
 =============================================================================
